@@ -235,7 +235,9 @@ Definition parse_volume (dev : device) (lba_start num_blocks : N) : outcome volu
         let! info := info_create info_block in
         Ok (mkVolume lba_start num_blocks (bpb_volume_label b) (bpb_blocks_per_cluster d)
               first_data_block fat_start second_fat_start
-              (info_free_clusters_count info) (info_next_free_cluster info) (bpb_cluster_count b)
+              (info_free_clusters_count info)
+              (match info_next_free_cluster info with Some c => if c <? bpb_cluster_count b + 2 then Some c else None | None => None end)
+              (bpb_cluster_count b)
               (Fat32Info (bpb_first_root_dir_cluster d) info_idx))
       end
     end
